@@ -279,7 +279,13 @@ async fn inject(conv: &mut Conv, e: &Evil, run: &tokio::task::JoinHandle<crate::
                     let real = conv.ports[pi].real;
                     let c = (*chunk as u64).clamp(1, conv.real_cs);
                     // The local user does not consume. Send until far beyond the buffer.
-                    let limit = conv.ports[pi].avail + 4 * conv.real_cs + 64;
+                    // What the endpoint may hold is its receive buffer: credits for data its receiver
+                    // already consumed but has not yet returned (below the return threshold) do
+                    // not count as buffered, so `avail` (the peer's view of its credit) can be smaller
+                    // than the room the endpoint rightly still has. Everything the conversation sent so
+                    // far was consumed, hence the room is at most the whole receive buffer.
+                    let room = conv.real_rb;
+                    let limit = room + 4 * conv.real_cs + 64;
                     let mut sent = 0u64;
                     let mut first = true;
                     while sent < limit {
@@ -299,14 +305,14 @@ async fn inject(conv: &mut Conv, e: &Evil, run: &tokio::task::JoinHandle<crate::
                         }
                     }
                     settle().await;
-                    let over = sent.saturating_sub(conv.ports[pi].avail);
+                    let over = sent.saturating_sub(room);
                     st.bytes_over_credit = over;
                     conv.ports[pi].avail = 0;
                     if over > conv.real_cs && !run.is_finished() {
                         return err(
                             "C08/buffer-exceeded",
                             format!(
-                                "peer sent {sent} bytes on a port whose receiver does not consume; that is {over} bytes more than the granted credit (receive_buffer {}), yet the endpoint keeps accepting",
+                                "peer sent {sent} bytes on a port whose receiver does not consume; that is {over} bytes more than its receive buffer ({}), yet the endpoint keeps accepting",
                                 conv.real_rb
                             ),
                         );
@@ -830,7 +836,7 @@ pub fn main(tier: Tier, seed: u64) -> Report {
     if !regress.is_empty() {
         runner::run_cases(&mut rep, "regress", regress, run_case);
     }
-    runner::run_generated(&mut rep, "hostile", tier.pick(30_000, 400_000), || strategy(tier), run_case);
+    runner::run_generated(&mut rep, "hostile", tier.pick(60_000, 400_000), || strategy(tier), run_case);
     rep
 }
 
